@@ -29,7 +29,7 @@
 (* The hidden action Consume resolves this; TLC searches.                    *)
 (*                                                                         *)
 (* Events (projection of the log of configuration E, checks/e_join.py):      *)
-(*   reset ids               new agent instance; ids = downlinks of the run  *)
+(*   reset ids lm            new agent instance; ids = downlinks of the run  *)
 (*   open id kind ewns keep  the instruction that opens the downlink ran     *)
 (*   dlreq id | dlans id how(ok|refuse|fatal)                                *)
 (*   dlin id do(linked|synced|event|unlinked|fail|close|closein|outfail) ... *)
@@ -66,6 +66,7 @@ Fresh == [kind |-> "none", ewns |-> FALSE, keep |-> FALSE,
           want |-> FALSE,        \* a request for the downlink is owed by the agent
           asked |-> FALSE,       \* a request is unanswered
           left |-> 0,            \* further attempts of the current series
+          gen |-> 0,             \* channels it has had so far
           inq |-> <<>>,          \* delivered, not yet taken
           ls |-> "U",            \* U | L | S   (the downlink's own link state)
           val |-> -1, map |-> EmptyMap,
@@ -200,11 +201,18 @@ Step(e) ==
       ELSE
     \/ /\ e.e = "reset"
        /\ D' = [id \in {e.ids[x] : x \in 1..Len(e.ids)} |-> Fresh]
-       /\ cur' = 0 /\ exp' = <<>> /\ LM' = EmptyMap /\ stopping' = FALSE /\ UNCHANGED kf
+       /\ cur' = 0 /\ exp' = <<>> /\ LM' = e.lm /\ stopping' = FALSE /\ UNCHANGED kf      \* (lm: what the lane `map` holds when the instance starts)
     \/ /\ e.e = "open" /\ e.id \in Ids /\ D[e.id].phase = "none"
        \* (the handle goes to the slot of its kind: the handle of the downlink opened before is dropped)
-       /\ D' = [x \in Ids |-> IF x = e.id THEN [D[x] EXCEPT !.kind = e.kind, !.ewns = e.ewns, !.keep = e.keep, !.phase = "asking", !.want = TRUE, !.left = Retries]
-                               ELSE IF D[x].kind = e.kind THEN [D[x] EXCEPT !.orphan = TRUE, !.excused = TRUE] ELSE D[x]]
+       \* (a downlink that lost its channel decides whether to ask for a new one when it is next polled - after the callback
+       \* for the loss has run; if its handle is dropped before that it is not restarted: either may be the case for a
+       \* request that is owed and has not been seen yet)
+       /\ \E dies \in BOOLEAN :
+            D' = [x \in Ids |-> IF x = e.id THEN [D[x] EXCEPT !.kind = e.kind, !.ewns = e.ewns, !.keep = e.keep, !.phase = "asking", !.want = TRUE, !.left = Retries]
+                                ELSE IF D[x].kind # e.kind THEN D[x]
+                                ELSE IF dies /\ D[x].phase = "asking" /\ D[x].want /\ D[x].gen > 0
+                                       THEN [D[x] EXCEPT !.orphan = TRUE, !.excused = TRUE, !.phase = "dead", !.want = FALSE]
+                                       ELSE [D[x] EXCEPT !.orphan = TRUE, !.excused = TRUE]]
        /\ UNCHANGED <<cur, exp, LM, stopping, kf>>
     \/ /\ e.e = "dlreq" /\ e.id \in Ids
        /\ D[e.id].want                                       \* H4: only a request that is due
@@ -212,7 +220,7 @@ Step(e) ==
        /\ UNCHANGED <<cur, exp, LM, stopping, kf>>
     \/ /\ e.e = "dlans" /\ e.id \in Ids /\ D[e.id].asked
        /\ LET d == [D[e.id] EXCEPT !.asked = FALSE] IN
-          Upd(e.id, CASE e.how = "ok" -> [d EXCEPT !.phase = "run", !.inq = IF d.stopped THEN <<[do |-> "stop"]>> ELSE <<>>,
+          Upd(e.id, CASE e.how = "ok" -> [d EXCEPT !.phase = "run", !.gen = @ + 1, !.inq = IF d.stopped THEN <<[do |-> "stop"]>> ELSE <<>>,
                                                     !.ls = "U", !.val = -1, !.map = EmptyMap, !.obroken = FALSE]
                       [] e.how = "refuse" -> IF d.left > 0 THEN [d EXCEPT !.left = @ - 1, !.want = TRUE] ELSE [d EXCEPT !.phase = "dead"]
                       [] OTHER -> [d EXCEPT !.phase = "dead"])
@@ -231,8 +239,12 @@ Step(e) ==
        /\ LET d == D[e.id] IN
           \* (what the handle reports is the link state the notifications taken so far imply)
           /\ (d.phase = "run" => (e.linked <=> d.ls \in {"L", "S"}))
-          /\ Upd(e.id, IF d.phase = "run" /\ ~d.stopped
+          /\ \E dies \in BOOLEAN :
+               Upd(e.id, IF d.phase = "run" /\ ~d.stopped
                          THEN [d EXCEPT !.stopped = TRUE, !.inq = <<[do |-> "stop"]>>, !.excused = TRUE]
+                         \* (a restart that is owed and has not been seen yet may not happen any more, see `open`)
+                         ELSE IF dies /\ d.phase = "asking" /\ d.want /\ d.gen > 0
+                         THEN [d EXCEPT !.stopped = TRUE, !.excused = TRUE, !.phase = "dead", !.want = FALSE]
                          ELSE [d EXCEPT !.stopped = TRUE, !.excused = TRUE])
        /\ UNCHANGED <<cur, exp, LM, stopping, kf>>
     \/ /\ e.e = "dlset" /\ e.id \in Ids
